@@ -1497,6 +1497,15 @@ Proof.
     cbn [cwf_hist cfinal fold_left]. rewrite Hp. cbn [andb]. split; [rewrite <- L'; exact H1|exact H2].
 Qed.
 
+Lemma crun_fast_eq call : forall ops st, crun_fast call st ops = crun call st ops.
+Proof.
+  unfold crun_fast. induction ops as [|o ops IH]; intros st; cbn [crun_w crun]; auto.
+  destruct o as [o|x bs]; cbn [cstep].
+  - destruct (step (world_of (cs_g st) (cs_if st)) call (cs_sys st) o) as [s' a]. f_equal.
+    apply (IH (mkCS (cs_g st) (cs_if st) s')).
+  - f_equal. apply (IH (mkCS (set_spec_bases (cs_g st) x bs) (cs_if st) (spec_changed (cs_g st) x (cs_sys st)))).
+Qed.
+
 (* ---- C05, state form: at every reachable state, no lookup-family answer depends on the caches *)
 Theorem cache_transparent_state call fl g ifs ops q :
   cwf_hist fl 0 (ops ++ [CReg q]) = true -> is_lookup q = true ->
